@@ -584,11 +584,8 @@ func alterable(modify *schema.ModifyTable) bool {
 
 // checks writes the CHECK constraint to the builder.
 func check(b *sqlx.Builder, c *schema.Check) {
-	expr := c.Expr
 	// Expressions should be wrapped with parens.
-	if t := strings.TrimSpace(expr); !strings.HasPrefix(t, "(") || !strings.HasSuffix(t, ")") {
-		expr = "(" + t + ")"
-	}
+	expr := sqlx.MayWrap(strings.TrimSpace(c.Expr))
 	if c.Name != "" {
 		b.P("CONSTRAINT").Ident(c.Name)
 	}
